@@ -154,6 +154,9 @@ func runGraph(prop string, mix opMix) func(s *Sim) {
 			nOps++
 			a.Add(name, func() { liveness(a, name, fn(a)) })
 		}
+		farTimes := wl.Chance(1, 6)
+		newRoot := wl.Chance(1, 3)
+		nFar := 0
 		nextT := func() time.Time {
 			g.clock += int64(1 + wl.Draw(1000))
 			return time.Unix(0, g.clock)
@@ -186,6 +189,16 @@ func runGraph(prop string, mix opMix) func(s *Sim) {
 				p.Type = []string{"value", "description", "a", "b", "ab", ""}[wl.Draw(6)] // "": an untyped point is an identity of its own, not a wildcard
 				p.Key = []string{"", "0", "1", "a"}[wl.Draw(4)]
 				p.Time = nextT()
+				if farTimes && wl.Chance(1, 8) {
+					// a device with a garbage clock: years outside what fits 64-bit nanoseconds (the store keeps the wrapped
+					// count; the checksum, the hash and the answers have to agree on it all the same)
+					y := []int{2300, 2555, 9000, 1600, 1066, 2}[wl.Draw(6)]
+					p.Time = time.Date(y, time.Month(1+wl.Draw(12)), 1+wl.Draw(28), wl.Draw(24), wl.Draw(60), wl.Draw(60), wl.Draw(1000000000), time.UTC)
+					// an identity of its own: which of two such stamps is the newer one (as submitted, or as kept) is not what
+					// these runs are about
+					nFar++
+					p.Type, p.Key = "far", fmt.Sprint(nFar)
+				}
 				pts = append(pts, p)
 			}
 			return pts
@@ -581,6 +594,29 @@ func runGraph(prop string, mix opMix) func(s *Sim) {
 						before[i].Parent, before[i].ID, before[i].Hash, after[i].Hash)
 					return
 				}
+			}
+		}
+		if !newRoot || cfg.DelayPM > 0 {
+			return
+		}
+		// The last thing one run in three does is to give the instance a second root: a legal write, and the only one that
+		// changes the instance's idea of its root.  What the tree looks like afterwards belongs to no model here (the
+		// monitors are off); that the instance goes on answering, after everything it refused before, does.
+		tr.Muted.Store(true)
+		var e [4]error
+		s.Call(func() {
+			t := time.Now()
+			e[0] = client.SendEdgePoints(in.Obs, "zroot", "root", data.Points{{Type: data.PointTypeTombstone, Time: t},
+				{Type: data.PointTypeNodeType, Text: "device", Time: t}}, true)
+			e[1] = client.SendNodePoint(in.Obs, "zroot", data.Point{Type: data.PointTypeDescription, Text: "second root", Time: t}, true)
+			e[2] = client.SendEdgePoint(in.Obs, "zroot", "root", data.Point{Type: "role", Text: "r", Time: t}, true)
+			_, e[3] = client.GetNodes(in.Obs, "root", "all", "", false)
+		})
+		for i, err := range e {
+			if err != nil && (errors.Is(err, nats.ErrTimeout) || errors.Is(err, nats.ErrNoResponders)) {
+				s.Fail("C05", "unanswered-after-new-root", "%s was not answered (%v) once a second node had been placed under \"root\": the instance was up, nothing was delayed",
+					[]string{"the edge write that creates the second root", "a node-point write to the new root", "an edge-point write to the new root", "a query for the root"}[i], err)
+				return
 			}
 		}
 	}
